@@ -20,6 +20,11 @@ from .bits import ZERO, ONE, TOP
 sys.setrecursionlimit(20000)
 
 
+class _StrDeref(Exception):
+    def __init__(self, v):
+        self.v = v
+
+
 class Undecided(Exception):
     def __init__(self, cause):
         Exception.__init__(self, cause)
@@ -622,6 +627,8 @@ class Interp(object):
             k = e["k"]
             if k == "deref":
                 pv = get_path(self.read_cell(st, cell), path)
+                if isinstance(pv, Opaque) and pv.kind == "str" and e is place["p"][-1]:
+                    raise _StrDeref(pv)
                 if not isinstance(pv, Ptr):
                     raise Undecided("deref of %r in %s" % (pv, fr.fn_path))
                 cell, path = pv.cell, pv.path
@@ -759,7 +766,10 @@ class Interp(object):
         if k == "use":
             return self.operand(fr, st, rv["op"])
         if k == "ref" or k == "rawptr":
-            cell, path, off = self.lvalue(fr, st, rv["place"])
+            try:
+                cell, path, off = self.lvalue(fr, st, rv["place"])
+            except _StrDeref as e:
+                return e.v
             # re-borrow of a slice: keep the window of the pointer we came through
             pl = rv["place"]
             if pl["p"] and pl["p"][-1]["k"] == "deref":
@@ -767,6 +777,8 @@ class Interp(object):
                 pv = self.read_place(fr, st, inner)
                 if isinstance(pv, Ptr):
                     return Ptr(pv.cell, pv.path, pv.sl, "ref")
+                if isinstance(pv, Opaque) and pv.kind == "str":
+                    return pv
             return Ptr(cell, path)
         if k == "copy_for_deref":
             return self.read_place(fr, st, rv["place"])
